@@ -2,6 +2,7 @@
 EXTENDS DateZone, Json, TLC
 \* complete histories that contain an encode after a zone change
 Interesting == \/ \E i, j \in 1..Len(hist) : i > 1 /\ i < j /\ hist[i].op = "zone" /\ hist[j].op = "encode"
+               \/ \E i, j \in 1..Len(hist) : i < j /\ hist[i].op = "encode" /\ hist[j].op = "encode" /\ hist[i].k = hist[j].k /\ hist[i].k \in {"ns", "us", "ms", "msdot"}
                \/ \E i, j \in 1..Len(hist) : i < j /\ hist[i].op = "fork" /\ hist[j].op = "encode" /\ hist[j].k = "pid"
 Emit == (Len(hist) = MaxOps + 1 /\ Interesting) => PrintT(<<"REPLAY", ToJson([ops |-> hist])>>)
 =============================================================================
